@@ -107,6 +107,31 @@ CLAIMED = {
         note='partial: the theorem covers the model\'s index arithmetic; reference counts, allocator and CPython C-API behaviour '
              'are only exercised under sanitizers.',
         technique='Coq proof of index safety on a checked-array model + sanitizer campaign on the real C code'),
+    'C15': dict(
+        category='proof',
+        text='Qed-closed universal theorems about a Gallina transcription of _run_featured plus BreakpointHandler incl. '
+             'command-line parsing: C15_transparent (whole final machine state equals the undebugged run, for every program, '
+             'breakpoint set and command script without quit), C15_pauses (exact pause positions: breakpoint hit or '
+             'next_break; step = +1, skip N = +N, continue, continue-all), C15_quit (prefix state), C15_reads_inert, '
+             'C15_read_word / C15_read_var (reads return the true current value).',
+        design_ref='DESIGN.md section 4, C15',
+        note='The model is tied to the Python code on every run by a differential campaign of real debugger sessions (all '
+             'scripts up to length 3-4 over 12 commands for some programs, random scripts, the flipjump.debug entry). Label '
+             'decoration of banners is not modelled; command lines are ASCII; the featured engine step is tied to the machine '
+             'definition by C01. F11 fixed.',
+        technique='Coq transparency / pause-position theorems on a debugger model + exhaustive short-script session campaign'),
+    'C16': dict(
+        category='proof',
+        text='Qed-closed theorems: name injectivity of expansion paths (C16_unique), table construction (unique keys, a declared '
+             'label maps to its declaration address, start labels only on otherwise unlabelled addresses), save/load round '
+             'trip under explicit json/lzma premises, and the exact breakpoint domain (C16_breakpoints). "Label address = '
+             'address of the following statement in the assembled image" is decided by correspondence: generated multi-file '
+             'programs with namespaces, reps, label parameters, pad/segment/reserve at w=8..64 assembled by the real assembler, '
+             'addresses recovered from unique op words in the image independently of the table.',
+        design_ref='DESIGN.md section 4, C16',
+        note='C16_table is guarded by no_collision (known finding F17: `_.wflip_area_start_k` overwritten; N2: catch-all on the '
+             'same name). JSON/LZMA round-trip laws are premises. The campaign does not cover stl or wflip-statement programs.',
+        technique='Coq theorems on the label-table / breakpoint model + image-based correspondence of label addresses'),
     'C18': dict(
         category='proof',
         text='Qed-closed theorems on the machine with a failing device: a device exception at call k stops the run exactly at '
